@@ -625,6 +625,7 @@ type c15Case struct {
 	MaxOwn  int    `json:"max_owned"`
 	Fault   int    `json:"storage_fault_per_mille"`
 	SkewS   int    `json:"store_clock_skew_s,omitempty"`
+	Reload  string `json:"prefix_hot_reload,omitempty"` // "", before-seed, after-seed, after-seed-one-node
 	Sub     int64  `json:"subseed"`
 }
 
@@ -789,6 +790,35 @@ func (e *c15Env) uniqueAllTaken(n int, owned [][]c15Owned) {
 	}
 }
 
+// c15HotReload performs an ordinary runtime configuration update on hybrid stores: the
+// persistent-prefix list is re-applied (same list on even nodes, extended list on odd
+// ones) through the public UpdatePersistentPrefixes. Keys under shared prefixes (id
+// markers, node leases) must keep being arbitrated in the shared tier afterwards.
+func c15HotReload(stores []storage.Storage, onlyNode int) int {
+	n := 0
+	seen := map[any]bool{}
+	for i, st := range stores {
+		if onlyNode >= 0 && i != onlyNode {
+			continue
+		}
+		h, ok := st.(interface {
+			UpdatePersistentPrefixes([]string)
+			GetConfig() *storage.HybridConfig
+		})
+		if !ok || seen[st] {
+			continue
+		}
+		seen[st] = true
+		list := append([]string(nil), h.GetConfig().PersistentPrefixes...)
+		if i%2 == 1 {
+			list = append(list, "tunnox:persist:verif-extra:")
+		}
+		h.UpdatePersistentPrefixes(list)
+		n++
+	}
+	return n
+}
+
 // c15RunCase executes one case; false = watchdog fired (inconclusive).
 func c15RunCase(t *testing.T, run *vk.Run, ent *c15Entropy, cs c15Case, fam *c15Stats) bool {
 	rf := &c15RedisFault{r: mrand.New(mrand.NewSource(cs.Sub ^ 0x4ed15))}
@@ -813,6 +843,9 @@ func c15RunCase(t *testing.T, run *vk.Run, ent *c15Entropy, cs c15Case, fam *c15
 		}
 	}
 
+	if cs.Reload == "before-seed" {
+		run.Count("prefix_hot_reloads", int64(c15HotReload(cl.stores, -1)))
+	}
 	// ---- phase 0: pre-existing markers, created by the real Generate of the last node
 	seedNode := cs.G - 1
 	for k := range c15Kinds {
@@ -848,6 +881,12 @@ func c15RunCase(t *testing.T, run *vk.Run, ent *c15Entropy, cs c15Case, fam *c15
 		}
 	}
 	ent.rd.setForce(-1)
+	switch cs.Reload {
+	case "after-seed":
+		run.Count("prefix_hot_reloads", int64(c15HotReload(cl.stores, -1)))
+	case "after-seed-one-node":
+		run.Count("prefix_hot_reloads", int64(c15HotReload(cl.stores, 0)))
+	}
 	faults := &c15Faults{perMille: cs.Fault, live: &e.live}
 	cl.setHook(c15YieldHook(mrand.New(mrand.NewSource(cs.Sub^0x1e1d)), faults))
 	rf.perMille.Store(int64(cs.Fault)) // armed only now: seeding above ran without faults
@@ -1034,7 +1073,7 @@ func c15TestCluster(t *testing.T) {
 	vk.Quiet()
 	run := vk.Start(t, "C15", "idgen-cluster")
 	defer run.Finish()
-	run.Rule("case = (backend in memory/redis(miniredis)/hybrid+shared redis/hybrid local/no-SetNX double, K in {1,2,4,16,64} candidate ids per kind via a K-pattern crypto/rand.Reader, G in {1,2,4} IDManager nodes x 4 goroutines, pre-seed pattern none/some/all-but-one/all, release ratio); phases: seed via real Generate, mixed Generate/Release with random yields at every storage op and (2 of 3 cases) storage faults injected before SetNX/Set/Exists/Delete of marker keys at 0.5-4% (x4 on SetNX/Exists of a currently held id) plus, on the Redis-backed stores, transport errors injected below the Redis storage on SET-NX commands (before the command is sent / reply lost after it was applied), fill to saturation, saturated probes, release all, regenerate; distinct = (backend,K,G,preseed,faults on/off)")
+	run.Rule("case = (backend in memory/redis(miniredis)/hybrid+shared redis/hybrid local/no-SetNX double, K in {1,2,4,16,64} candidate ids per kind via a K-pattern crypto/rand.Reader, G in {1,2,4} IDManager nodes x 4 goroutines, pre-seed pattern none/some/all-but-one/all, release ratio); phases: seed via real Generate, mixed Generate/Release with random yields at every storage op and (2 of 3 cases) storage faults injected before SetNX/Set/Exists/Delete of marker keys at 0.5-4% (x4 on SetNX/Exists of a currently held id) plus, on the Redis-backed stores, transport errors injected below the Redis storage on SET-NX commands (before the command is sent / reply lost after it was applied), on hybrid stores in 2 of 3 cases a runtime UpdatePersistentPrefixes (config hot reload) before or after seeding on all nodes or one; fill to saturation, saturated probes, release all, regenerate; distinct = (backend,K,G,preseed,faults on/off)")
 	ent := c15InstallEntropy(t, run)
 	r := run.Rand("cases")
 	reps := run.Pick(3, 30)
@@ -1062,6 +1101,9 @@ func c15TestCluster(t *testing.T) {
 				if rep%3 != 0 {
 					cs.Fault = []int{5, 15, 40}[r.Intn(3)]
 				}
+				if strings.HasPrefix(be, "hybrid") && rep%3 != 1 {
+					cs.Reload = []string{"before-seed", "after-seed", "after-seed-one-node"}[(caseNo+k)%3]
+				}
 				if (be == "redis" || be == "hybrid-shared") && rep%2 == 1 {
 					cs.SkewS = []int{-600, -120, 120, 600}[r.Intn(4)]
 				}
@@ -1077,7 +1119,7 @@ func c15TestCluster(t *testing.T) {
 					aborted = true // a stuck case may still hold goroutines on the shared reader
 				}
 				run.Eval(1)
-				run.Distinct(fmt.Sprintf("%s|K=%d|G=%d|%s|faults=%v", be, k, g, cs.Seed, cs.Fault > 0))
+				run.Distinct(fmt.Sprintf("%s|K=%d|G=%d|%s|faults=%v|reload=%s", be, k, g, cs.Seed, cs.Fault > 0, cs.Reload))
 				run.Sample(cs)
 				run.Count("cases_"+be, 1)
 			}
@@ -1104,6 +1146,7 @@ func c15TestCluster(t *testing.T) {
 	run.Floor("redis_setnx_failed_before_apply", 50)
 	run.Floor("redis_setnx_reply_lost_after_apply", 50)
 	run.Floor("unique_all_taken_refused", 100)
+	run.Floor("prefix_hot_reloads", 10)
 }
 
 // TestVerifC15Sched drives small scenarios under the cooperative scheduler: one
@@ -1864,6 +1907,9 @@ func c15TestFactory(t *testing.T) {
 				if k == 1 && cs.Seed == "all-but-one" {
 					cs.Seed = "none"
 				}
+				if be != "factory-redis-storage" && k != 4 {
+					cs.Reload = []string{"before-seed", "after-seed"}[caseNo%2]
+				}
 				run.Case(fmt.Sprintf("factory|%s|K=%d|G=%d|%s", be, k, g, cs.Seed), cs)
 				if c15RunCase(t, run, ent, cs, &c15Stats{}) {
 					decided++
@@ -1894,6 +1940,7 @@ func c15TestFactory(t *testing.T) {
 	run.Floor("refused_while_saturated", 20)
 	run.Floor("preseeded_markers", 10)
 	run.Floor("node_ids_allocated", 30)
+	run.Floor("prefix_hot_reloads", 6)
 }
 
 // c15FactoryNodeIDs: one allocator per factory-built node allocates concurrently (round
